@@ -52,9 +52,15 @@ def run(R: vlib.Run):
                 inputs.append([rng.choice([0, 255, 128, 127, rng.randrange(256)]) for _ in range(n)])
             for inp in inputs:
                 a = np.array(inp, dtype=np.uint8)
-                out = bits.unpack(a, nbits, bitorder=oname)
-                buf = np.full(a.size * bf, 0xAB, dtype=np.uint8)
-                out2 = bits.unpack(a, nbits, buf, bitorder=oname)
+                try:
+                    out = bits.unpack(a, nbits, bitorder=oname)
+                    buf = np.full(a.size * bf, 0xAB, dtype=np.uint8)
+                    out2 = bits.unpack(a, nbits, buf, bitorder=oname)
+                except Exception as e:  # noqa: BLE001
+                    R.case(("u", nbits, oname, tuple(inp)), regime=f"unpack{nbits}_{oname}")
+                    R.fail(f"unpack{nbits}_{oname}_raises", f"unpack of a valid uint8 array raised {type(e).__name__}: {str(e)[:120]}",
+                           {"nbits": nbits, "order": oname, "in": inp})
+                    continue
                 exp = [f for b in inp for f in fields(b, nbits, big)]
                 key = ("u", nbits, oname, tuple(inp))
                 R.case(key, nontrivial=len(inp) > 0, regime=f"unpack{nbits}_{oname}",
@@ -86,9 +92,16 @@ def run(R: vlib.Run):
                 pinputs.append([rng.randrange(lim) for _ in range(n * bf)])
             for inp in pinputs:
                 v = np.array(inp, dtype=np.uint8)
-                out = bits.pack(v, nbits, bitorder=oname)
-                pbuf = np.full(v.size // bf, 0xCD, dtype=np.uint8)
-                out2 = bits.pack(v, nbits, pbuf, bitorder=oname)
+                try:
+                    out = bits.pack(v, nbits, bitorder=oname)
+                    pbuf = np.full(v.size // bf, 0xCD, dtype=np.uint8)
+                    out2 = bits.pack(v, nbits, pbuf, bitorder=oname)
+                    un = bits.unpack(out, nbits, bitorder=oname)
+                except Exception as e:  # noqa: BLE001
+                    R.case(("p", nbits, oname, tuple(inp)), regime=f"pack{nbits}_{oname}")
+                    R.fail(f"pack{nbits}_{oname}_raises", f"pack / unpack of valid samples raised {type(e).__name__}: {str(e)[:120]}",
+                           {"nbits": nbits, "order": oname, "in": inp})
+                    continue
                 exp = [byte_of(inp[i * bf:(i + 1) * bf], nbits, big) for i in range(len(inp) // bf)]
                 key = ("p", nbits, oname, tuple(inp))
                 R.case(key, nontrivial=len(inp) > 0, regime=f"pack{nbits}_{oname}",
